@@ -39,7 +39,7 @@ EXTRA = {
                     "roles": ["Defender", "Defender", "Attacker"]})],
 }
 # properties whose checks also run the scripted "world-changing agent leaves, idle agent completes the reset" histories
-DIRECTED = {"C01", "C06", "C07", "C10"}
+DIRECTED = {"C01", "C05", "C06", "C07", "C09", "C10", "C16"}
 NONTRIVIAL = {
     "C01": ("parked_total", "a request parked at a barrier (start / end / reset) at a quiescent point"),
     "C04": ("final_observations", "a final (end=True) observation delivered"),
